@@ -108,6 +108,7 @@ var c05Names = []string{
 	"sec.test.",          // 14 apex (SOA/NS/DNSKEY/DS)
 	"two.sec.test.",      // 15 two A records
 	"back.plain.test.",   // 16 CNAME -> www.sec.test. (insecure alias, secure target)
+	"big.sec.test.",      // 17 TXT answer above the server's 1232-byte UDP ceiling, below 4096
 }
 
 func c05Spec(sc *C05Scenario) *world.Spec {
@@ -119,7 +120,8 @@ func c05Spec(sc *C05Scenario) *world.Spec {
 				Records: []string{"www.sec.test. 300 IN A 192.0.2.1", "www.sec.test. 300 IN AAAA 2001:db8::1", "alias.sec.test. 120 IN CNAME www.sec.test.",
 					"far.sec.test. 200 IN CNAME www.plain.test.", "*.w.sec.test. 60 IN A 192.0.2.9", "a.ent.x.sec.test. 300 IN A 192.0.2.7",
 					"two.sec.test. 90 IN A 192.0.2.21", "two.sec.test. 90 IN A 192.0.2.22",
-					fmt.Sprintf("txt.sec.test. 300 IN TXT \"%s\" \"%s\" \"%s\"", strings.Repeat("t", 200), strings.Repeat("u", 200), strings.Repeat("v", 200))}},
+					fmt.Sprintf("txt.sec.test. 300 IN TXT \"%s\" \"%s\" \"%s\"", strings.Repeat("t", 200), strings.Repeat("u", 200), strings.Repeat("v", 200)),
+					"big.sec.test. 300 IN TXT " + strings.Repeat("\""+strings.Repeat("b", 200)+"\" ", 7)}},
 			{Name: "plain.test.", NSNames: []string{"ns.plain.test."}, Addrs: []string{"192.0.9.3"}, Records: []string{"www.plain.test. 150 IN A 192.0.2.2", "back.plain.test. 100 IN CNAME www.sec.test."}},
 			{Name: "dead.test.", NSNames: []string{"ns.dead.test."}, Addrs: []string{"192.0.9.4"}},
 			{Name: "blocked.test.", NSNames: []string{"ns.blocked.test."}, Addrs: []string{"192.0.9.5"}, Records: []string{"ads.blocked.test. 300 IN A 192.0.2.66"}},
@@ -163,6 +165,19 @@ func genC05(r *kit.RNG) *C05Scenario {
 			op := C05Op{GapMs: kit.Pick(r, []int{5, 50, 400, 2000}), Client: r.Intn(3), Name: nm, Type: qt, AD: r.Chance(0.5), CD: r.Chance(0.15)}
 			if r.Chance(0.7) {
 				op.EDNS, op.Size, op.DO = true, kit.Pick(r, []uint16{512, 1232, 4096}), r.Chance(0.5)
+			}
+			sc.Ops = append(sc.Ops, op)
+		}
+	}
+	if r.Chance(0.2) {
+		// size recipe: an answer around the size ceilings gets cached, then clients advertising
+		// sizes on both sides of the answer's size and of the server's own ceiling ask for it
+		nm := kit.Pick(r, []int{17, 17, 6})
+		for j, k := 0, r.Range(3, 5); j < k; j++ {
+			op := C05Op{GapMs: kit.Pick(r, []int{5, 50, 400, 2000}), Client: r.Intn(3), Name: nm, Type: dns.TypeTXT, EDNS: j == 0 || r.Chance(0.85),
+				Size: kit.Pick(r, []uint16{512, 660, 700, 720, 1232, 1233, 1400, 1480, 1500, 4096, 4096, 65535}), DO: r.Chance(0.4)}
+			if r.Chance(0.3) {
+				op.Upper = uint32(r.Uint64())
 			}
 			sc.Ops = append(sc.Ops, op)
 		}
@@ -370,6 +385,45 @@ func c05World(sc *C05Scenario, wire bool, tr *kit.Trace, res *kit.Result) (repli
 	return
 }
 
+// c05CaseTruncation recognises one recorded divergence and nothing else: the wire reply is complete
+// and within the client's advertised size, the decoded reply is the truncated form of the same
+// question, the question has upper-case letters, and the wire reply re-packed the way the decoded
+// path packs it (owner names in the cache's lower case, library compression) exceeds that size.
+func c05CaseTruncation(wraw, draw []byte, op C05Op) bool {
+	if wraw == nil || draw == nil || !op.EDNS {
+		return false
+	}
+	wm, dm := new(dns.Msg), new(dns.Msg)
+	if wm.Unpack(wraw) != nil || dm.Unpack(draw) != nil {
+		return false
+	}
+	if wm.Truncated || !dm.Truncated || len(dm.Answer)+len(dm.Ns) != 0 || wm.Rcode != dm.Rcode || len(wm.Question) != 1 {
+		return false
+	}
+	q := wm.Question[0].Name
+	if q == strings.ToLower(q) {
+		return false
+	}
+	limit := int(op.Size)
+	if limit < 512 {
+		limit = 512
+	}
+	if limit > 1232 {
+		limit = 1232
+	}
+	if len(wraw) > limit {
+		return false
+	}
+	re := wm.Copy()
+	for _, sec := range [][]dns.RR{re.Answer, re.Ns, re.Extra} {
+		for _, rr := range sec {
+			rr.Header().Name = strings.ToLower(rr.Header().Name)
+		}
+	}
+	re.Compress = true
+	return re.Len() > limit
+}
+
 // c05Norm renders a reply in the form the property compares: header bits, rcode, question,
 // every section's records with TTLs (owner names lower-cased), EDNS version/size/DO/options.
 func c05Norm(raw []byte) string {
@@ -456,6 +510,16 @@ func runC05(sc *C05Scenario, tr *kit.Trace) *kit.Result {
 			// tick the prefetch machinery, the Msg-path chase does (entry_wire_chase.go)
 			res.Fail("C05/prefetch-divergence-on-wire-chase", "op %d (%s/%s): with prefetch=%d%% the alias reply composed on the wire path and the one composed on the decoded path differ in TTLs only — the decoded chase refreshed a hop the wire chase did not\n--- wire path:\n%s--- decoded path:\n%s",
 				i, c05Names[op.Name%len(c05Names)], dns.TypeToString[op.Type], sc.Prefetch, a, b)
+			return res
+		}
+		if a != b && c05CaseTruncation(wire[i], dec[i], op) {
+			// recorded finding: the decoded path packs with the library's case-sensitive name
+			// compression, so a mixed-case question stops the lower-case owner names of a cached
+			// answer from compressing against it; the wire path serves the stored body, whose
+			// owners are pointers into the question. A reply that fits the client's size on the
+			// wire path is truncated on the decoded path.
+			res.Fail("C05/truncation-differs-on-mixed-case-question", "op %d (%s/%s, edns size=%d): the wire path sent the full %d-byte reply, the decoded path truncated: with the question in mixed case the decoded path's case-sensitive compression cannot point the answer's owner names at the question and measures the reply above the client's limit\n--- wire path:\n%s--- decoded path:\n%s",
+				i, c05Names[op.Name%len(c05Names)], dns.TypeToString[op.Type], op.Size, len(wire[i]), a, b)
 			return res
 		}
 		if a != b {
